@@ -131,6 +131,7 @@ type Opts struct {
 	Workers  int           // 0 = GOMAXPROCS
 	Serial   bool          // bodies touch process-global state (SCHED): one worker
 	MaxFails int           // stop after this many failures (default 20)
+	Procs    int           // >1: shard the tree over this many worker PROCESSES (re-exec of the test binary); needed for Serial bodies
 }
 
 // runBody runs body once with the given prefix; panics other than HarnessError become failures.
@@ -190,6 +191,39 @@ func Explore(body func(*X), o Opts) *Section {
 		return sec
 	}
 	start := time.Now()
+	if child := os.Getenv("VERIF_CHILD"); child != "" {
+		if child != o.Name {
+			sec.Skipped = true
+			register(sec)
+			return sec
+		}
+		runChild(sec, body, o) // never returns
+	}
+	if o.Procs > 1 {
+		runParent(sec, o)
+		sec.WallS = time.Since(start).Seconds()
+		register(sec)
+		return sec
+	}
+	capHit := exploreFrom(sec, body, o, [][]int{nil}, start)
+	sec.WallS = time.Since(start).Seconds()
+	sec.Exhaustive = !capHit && sec.Abandoned == 0
+	if capHit {
+		sec.Cap = fmt.Sprintf("time budget %s hit; %d subtrees not expanded", o.Budget, sec.Abandoned)
+	}
+	register(sec)
+	return sec
+}
+
+// exploreFrom runs the parallel DFS from the given initial prefixes; it reports whether the time budget was hit.
+func exploreFrom(sec *Section, body func(*X), o Opts, initial [][]int, start time.Time) bool {
+	workers := o.Workers
+	if workers == 0 {
+		workers = runtime.GOMAXPROCS(0)
+	}
+	if o.Serial {
+		workers = 1
+	}
 	var deadline time.Time
 	if o.Budget > 0 {
 		deadline = start.Add(o.Budget)
@@ -202,8 +236,13 @@ func Explore(body func(*X), o Opts) *Section {
 		capHit  atomic.Bool
 		cond    = sync.NewCond(&mu)
 	)
-	stack = append(stack, task{nil})
-	pending = 1
+	for i := len(initial) - 1; i >= 0; i-- {
+		stack = append(stack, task{initial[i]})
+	}
+	pending = int64(len(initial))
+	if pending == 0 {
+		return false
+	}
 	var wg sync.WaitGroup
 	for w := 0; w < workers; w++ {
 		wg.Add(1)
@@ -265,13 +304,34 @@ func Explore(body func(*X), o Opts) *Section {
 		}()
 	}
 	wg.Wait()
-	sec.WallS = time.Since(start).Seconds()
-	sec.Exhaustive = !capHit.Load() && sec.Abandoned == 0
-	if capHit.Load() {
-		sec.Cap = fmt.Sprintf("time budget %s hit; %d subtrees not expanded", o.Budget, sec.Abandoned)
+	return capHit.Load()
+}
+
+// expand returns the child prefixes of an executed node (same rule as the DFS), in canonical order.
+func expand(x *X, prefixLen int, bound int) [][]int {
+	var out [][]int
+	devs := 0
+	for i, p := range x.Points {
+		if i >= prefixLen {
+			for alt := 1; alt < p.N; alt++ {
+				cost := devs
+				if p.Dev {
+					cost++
+				}
+				if cost > bound {
+					continue
+				}
+				np := make([]int, i+1)
+				copy(np, x.Choices[:i])
+				np[i] = alt
+				out = append(out, np)
+			}
+		}
+		if p.Dev && x.Choices[i] != 0 {
+			devs++
+		}
 	}
-	register(sec)
-	return sec
+	return out
 }
 
 func replaySection() string { return os.Getenv("VERIF_REPLAY_SECTION") }
